@@ -4,7 +4,7 @@ from __future__ import annotations
 import ast
 from typing import Dict, List, Optional, Set, Tuple
 
-from ..cfg import CFG, Node, explore, refine, walk_node
+from ..cfg import CFG, Node, explore, refine, resolve_at, walk_node
 from ..model import AnalysisError, FuncInfo, Repo, method_call, src, walk_no_nested
 from ..model import dotted as dotted_name
 from ..report import Ob, bad, note, ok, skip
@@ -225,7 +225,8 @@ def _shortcut(fi: FuncInfo, va: Optional[str], composite: bool, props) -> Ob:
 
     def transfer(s, lab, d, st):
         if s.kind in ("test", "assert") and lab in ("T", "F"):
-            return refine(s.ast, lab == "T", st, atom)
+            # `count = len(states)` … `count == 1`: a local is read through its unique reaching definition
+            return refine(resolve_at(cfg, s, s.ast, keep=(va,) if va else ()), lab == "T", st, atom)
         if s.kind == "case" and isinstance(s.stmt, ast.Match) and va and src(s.stmt.subject) == f"len({va})":
             pat = s.ast.pattern
             if isinstance(pat, ast.MatchValue) and isinstance(pat.value, ast.Constant):
@@ -290,6 +291,17 @@ def _combine_internals(fi: FuncInfo) -> List[Ob]:
     for n in walk_no_nested(fn):
         if isinstance(n, (ast.ListComp, ast.GeneratorExp)) and _selection_ok(n, va_vars) == "":
             sel_ok = True
+    # one comprehension over both:  (ps for state in <arguments> for ps in <all spaces> if state in ps.state_objs)
+    for n in walk_no_nested(fn):
+        if isinstance(n, (ast.ListComp, ast.GeneratorExp, ast.SetComp)) and len(n.generators) == 2:
+            ga = next((g for g in n.generators if src(g.iter) == va), None)
+            gs = next((g for g in n.generators if src(g.iter) in ALL_SPACES), None)
+            if ga is None or gs is None or ga is gs:
+                continue
+            conds = [c for g in n.generators for c in g.ifs]
+            want = f"{src(ga.target)} in {src(gs.target)}.state_objs"
+            if src(n.elt) == src(gs.target) and conds and all(src(c) == want for c in conds):
+                sel_ok = True
     (obs.append(ok("BLOCK", fi, "existing-spaces-selection", P, fn, "only product spaces holding an argument are collected")) if sel_ok else
      obs.append(bad("BLOCK", fi, "existing-spaces-selection", P, fn, "combine() no longer collects exactly the product spaces that hold one of its arguments")))
     # consumption loops
